@@ -211,6 +211,19 @@ def encode_plain(m):
     return "" if m == 0 else "m%d" % m
 
 
+def settable_properties():
+    """every public property of ThreadSocket that has a setter (today: use_callbacks) — the attribute routes an
+    application can take after construction"""
+    out = []
+    for name in dir(ThreadSocket):
+        if name.startswith("_"):
+            continue
+        a = getattr(ThreadSocket, name, None)
+        if isinstance(a, property) and a.fset is not None:
+            out.append(name)
+    return out
+
+
 def op_keys(t, op):
     """the socket keys (as int triples) an operation of thread t works on"""
     if op[0] in ("bc", "bs", "br", "brn"):
@@ -494,6 +507,14 @@ class Worker(threading.Thread):
         elif kind == "w":
             sock.wait()
             self.res.append(["waited", kj])
+        elif kind == "u":
+            # assign a public attribute / property of the LIVE socket after construction (e.g. use_callbacks): in the
+            # code as it is the hub reads such flags at connect time only, so this is no hub operation at all
+            sock.attr_assigned = True
+            try:
+                setattr(sock, op[3], op[4])
+            except AttributeError:
+                pass            # read-only property
         else:
             raise ValueError(op)
 
@@ -695,6 +716,8 @@ def ops_json(prog):
             out.append({"d": [op[1], op[2]]})
         elif k == "w":
             out.append({"w": [op[1], op[2]]})
+        elif k == "u":
+            pass        # assigning an attribute of the live socket: no hub operation in the code as it is
         elif k == "bc":
             out += [{"c": [r, op[2], 0]} for r in op[3]]
         elif k == "bs":
@@ -713,7 +736,8 @@ def _sends_and_incs(sc):
     """picklable incarnation table and send events; the delivery path of a send is attributed AFTER the run:
     per channel the callback log is matched in order against the successful sends (whichever thread ran the
     callback), everything else went to the queue path (or nowhere: the exactly-once rule catches that)"""
-    incs = {k: [{"cb": so.inc_cb, "open": so.t_open, "close_start": so.t_close_start, "closed": so.t_closed}
+    incs = {k: [{"cb": so.inc_cb, "open": so.t_open, "close_start": so.t_close_start, "closed": so.t_closed,
+                 "assigned": bool(getattr(so, "attr_assigned", False))}
                 for so in v] for k, v in sc.incarnations.items()}
     loose = {k: [e for e in v if not e[2]] for k, v in sc.cb_log.items()}   # callbacks run by another thread
     sends = []
@@ -869,8 +893,8 @@ def oracle(case, settle_steps):
         for i, inc in enumerate(incs):
             covers = inc["open"] is not None and inc["open"] < ev["start"] and \
                 (inc["close_start"] is None or ev["end"] < inc["close_start"])
-            if not covers:
-                continue
+            if not covers or inc.get("assigned"):
+                continue        # (a socket whose flags were assigned after construction is judged by the order rule alone)
             if inc["cb"] and not (ev["path"] == "cb" and ev["target_inc"] == i):
                 fails.append({"what": "message %d for %s was sent while the callback socket (incarnation %d) was open "
                                       "but did not reach its callback" % (ev["m"], list(ev["key"]), i),
@@ -1054,6 +1078,17 @@ def coarse_scenarios():
         [[("c", 1, 0, 0), B, ("r", 1, 0, 1), ("r", 1, 0, 1)], [("c", 0, 0, 0), B, ("s", 0, 0, 1), ("s", 0, 0, 2), ("d", 0, 0)]],
         [[("c", 1, 0, 0), B, ("s", 1, 0, 1), ("s", 1, 0, 2), ("s", 1, 0, 3), ("d", 1, 0)],
          [("c", 0, 0, 0), B, ("r", 0, 0, 1), ("r", 0, 0, 1), ("r", 0, 0, 1)]],
+        # one side's WHOLE lifetime (connect, sends, disconnect) inside the other side's connect polling: the barrier is
+        # the first operation, so the connects are explored too; the late side must still connect ("connected but
+        # closed again") and receive everything that was sent to it
+        [[B, ("c", 1, 0, 0), ("r", 1, 0, 1), ("r", 1, 0, 1)], [B, ("c", 0, 0, 0), ("s", 0, 0, 1), ("s", 0, 0, 2), ("d", 0, 0)]],
+        [[B, ("c", 1, 0, 0), ("s", 1, 0, 1), ("s", 1, 0, 2), ("d", 1, 0)], [B, ("c", 0, 0, 0), ("r", 0, 0, 1), ("r", 0, 0, 1)]],
+        # attribute routes: `use_callbacks` assigned on the live socket while a backlog is queued and the peer keeps
+        # sending (backlog first, then the later messages — whatever path they take); and the other direction
+        [[("c", 1, 0, 0), B, ("u", 1, 0, "use_callbacks", True), ("r", 1, 0, 0), ("r", 1, 0, 0), ("r", 1, 0, 0)],
+         [("c", 0, 0, 0), ("s", 0, 0, 1), ("s", 0, 0, 2), B, ("s", 0, 0, 3)]],
+        [[("c", 1, 0, 1), B, ("u", 1, 0, "use_callbacks", False), ("r", 1, 0, 0), ("r", 1, 0, 0)],
+         [("c", 0, 0, 0), ("s", 0, 0, 1), B, ("s", 0, 0, 2), ("s", 0, 0, 3)]],
         # two socket ids between the same pair, callback receivers, senders in both directions
         [[("c", 1, 0, 1), ("c", 1, 1, 1), B, ("s", 1, 0, 1), ("s", 1, 1, 2)],
          [("c", 0, 0, 1), ("c", 0, 1, 1), B, ("s", 0, 1, 3), ("s", 0, 0, 4)]],
@@ -1114,7 +1149,8 @@ def coarse_run(progs, preempt, step_cap=600):
             i += 1
         workers = sc.workers
         incs, sends = _sends_and_incs(sc)
-        unfinished = [w.tid for w in workers if not w.done]
+        unfinished = [(w.tid, {"c": "connect", "s": "send", "r": "recv", "d": "disconnect", "w": "wait", "u": "setattr",
+                               "b": "barrier"}.get(w.cur_op, w.cur_op), w.cur_key) for w in workers if not w.done]
     finally:
         final_queues = sc.finish()
     return {"progs": [[op for op in p if op[0] != "b"] for p in progs], "structured": [], "schedule": schedule,
@@ -1128,7 +1164,8 @@ def coarse_run(progs, preempt, step_cap=600):
 def coarse_oracle(case):
     fails = oracle(case, 0)
     if case["unfinished"]:
-        fails.append({"what": "threads %s did not finish their sends / non-blocking receives" % case["unfinished"],
+        fails.append({"what": "threads did not finish although every other thread is done or only polls an unchanged "
+                              "hub: %s (thread, operation it hangs in, socket key)" % case["unfinished"],
                       "key": None})
     return fails
 
@@ -1208,6 +1245,9 @@ def _check_cases(cases, driver, summary, settle):
             summary["dist"]["recv_structured-on-plain-string"] = summary["dist"].get("recv_structured-on-plain-string", 0) + 1
         if any(op[0] in ("bs", "br") for p in c["progs"] for op in p):
             summary["dist"]["broadcast"] = summary["dist"].get("broadcast", 0) + 1
+        if any(op[0] == "u" for p in c["progs"] for op in p):
+            summary["dist"]["attribute-assigned-after-construction"] = \
+                summary["dist"].get("attribute-assigned-after-construction", 0) + 1
         if any(op[0] == "w" for p in c["progs"] for op in p):
             summary["dist"]["wait"] = summary["dist"].get("wait", 0) + 1
         if any(sum(1 for o in p if o[0] == "c" and (o[1], o[2]) == (q[1], q[2])) > 1 for p in c["progs"] for q in p
@@ -1564,6 +1604,15 @@ def gen_programs(rng, n_nodes=None, max_ops=4):
                         progs[t].insert(rng.randrange(pos2 + 1, len(progs[t]) + 1), ("r", other, sid, 0))
                 elif rng.random() < 0.15:   # ThreadSocket.wait(): spin until the connection is gone
                     progs[other].append(("w", t, sid))
+    for t in range(n):          # attribute routes (last pass): assigned at an arbitrary point after the first connect
+        for (a, b, sid) in [x for x in socks if t in (x[0], x[1])]:
+            other = b if t == a else a
+            for name in settable_properties():
+                if rng.random() < 0.3:
+                    idx = [i for i, o in enumerate(progs[t]) if o[0] == "c" and (o[1], o[2]) == (other, sid)]
+                    if idx:
+                        pos = rng.randrange(idx[0] + 1, len(progs[t]) + 1)
+                        progs[t].insert(pos, ("u", other, sid, name, rng.random() < 0.5))
     return progs, []
 
 
